@@ -8,7 +8,7 @@ from lib import PropertyCheck, Violation, enc, dec, txt
 
 WORKER = 'c08_docflow.py'
 
-FMT_NAMES = ['epytext', 'restructuredtext', 'google', 'numpy', 'plaintext', 'nosuchformat']
+FMT_NAMES = ['epytext', 'restructuredtext', 'google', 'numpy', 'plaintext', 'nosuchformat', '_types']
 FMT_ID = {n: i for i, n in enumerate(FMT_NAMES)}
 KIND_OBJ = {'module': 'm', 'class': 'm.C', 'function': 'm.f', 'method': 'm.C.meth', 'attribute': 'm.C.x',
             'property': 'm.C.prop'}
@@ -260,7 +260,7 @@ def gives_up(case: dict, key: str) -> Optional[str]:
     if not o['doc']:
         return None
     fmt = 'plaintext' if case['sysfmt'] == 'plaintext' else (case.get('modfmt') or case['sysfmt'])
-    if fmt in ('plaintext', 'nosuchformat'):
+    if fmt in ('plaintext', 'nosuchformat', '_types'):
         return None
     beh = case['parsers'].get(o['doc'])
     if beh is None:
@@ -328,13 +328,13 @@ def oracle_inject(case: dict, r: Any) -> Optional[Tuple[str, str]]:
             # a renderer failure of the main body: plaintext of the source's docstring
             beh = case['parsers'].get(own_doc or '')
             if own_doc and fresh and not g and beh and beh['kind'] == 'ok' and beh['pdoc']['to_stan'] != 'ok' \
-                    and effective_fmt(case) not in ('plaintext', 'nosuchformat'):
+                    and effective_fmt(case) not in ('plaintext', 'nosuchformat', '_types'):
                 if o['body'] != ['pre', own_doc]:
                     return ('fallback', 'to_stan failed for %s but the body is %s' % (key, o['body']))
                 if (0, src) not in pe or not total_reports.get(src):
                     return ('unreported', 'to_stan failed for the docstring shown for %s but nothing was reported against its owner %s' % (key, src))
             if own_doc and fresh and not g and beh and beh['kind'] == 'ok' and beh.get('errs') \
-                    and effective_fmt(case) not in ('plaintext', 'nosuchformat'):
+                    and effective_fmt(case) not in ('plaintext', 'nosuchformat', '_types'):
                 if (0, src) not in pe or not total_reports.get(src):
                     return ('unreported', 'recovered markup errors of %s were not reported against %s' % (key, src))
                 if o['body'][0] == 'pre' and beh['pdoc']['to_stan'] == 'ok':
@@ -348,7 +348,7 @@ def oracle_inject(case: dict, r: Any) -> Optional[Tuple[str, str]]:
     if case.get('kind') == 'split':
         bp = case['parsers'][objs['P']['doc']]
         healthy = bp['kind'] == 'ok' and bp['pdoc']['to_stan'] == 'ok' and bp['pdoc']['to_node'] == 'ok' \
-            and not bp['pdoc'].get('boom_sum') and effective_fmt(case) not in ('plaintext', 'nosuchformat')
+            and not bp['pdoc'].get('boom_sum') and effective_fmt(case) not in ('plaintext', 'nosuchformat', '_types')
         for op, o in zip(case['ops'], r['ops']):
             if healthy and op[1] == 'P' and not o['raised']:
                 if op[0] == 'format_summary' and o['stan'] != ['opaque', bp['pdoc']['id'] + 100]:
@@ -357,7 +357,7 @@ def oracle_inject(case: dict, r: Any) -> Optional[Tuple[str, str]]:
                     return ('isolation_split', 'body of the healthy parent P is %s after its attribute A failed' % o['body'])
     # isolation: B is healthy whatever happened to A
     if 'B' in objs and objs['B']['doc'] == DOC_B and DOC_B not in case['parsers'] and not case.get('b_touched'):
-        plain = effective_fmt(case) in ('plaintext', 'nosuchformat')
+        plain = effective_fmt(case) in ('plaintext', 'nosuchformat', '_types')
         for op, o in zip(case['ops'], r['ops']):
             if op[1] != 'B' or o['raised']:
                 continue
@@ -638,6 +638,11 @@ class Gen:
 
 
 CORPUS_REAL = [
+    # long INVALID link targets: rejecting them must take no time (an ambiguous nested quantifier in the target check
+    # makes it exponential: the call never returns -> reported as a hang with this docstring)
+    'See L{pydoctor.epydoc.markup.epytext.ParsedEpytextDocstring[int]} for details.',
+    'L{a_rather_long_identifier_name_of_more_than_forty_characters!}\n\n@param x: L{twisted.internet.interfaces.IReactorTime.callLater-}',
+    'L{short[1]} and L{pydoctor.epydoc.markup.epytext.ParsedEpytextDocstring} are fine',
     # a field body the HTML renderer rejects (non-XML character / form feed): known finding C08-field-renderer-failure-loses-text
     'Body text.\n\n@note: a form\x0cfeed in a field', 'Body text.\n\n:note: a \uffff in a field', '@see: state \ufffe is.',
     # the same characters in the BODY: whole text as plain text, reported
@@ -737,7 +742,7 @@ class Check(PropertyCheck):
 
     def exhaustive_cases(self) -> List[dict]:
         out = []
-        fmtcfgs = [(f, None) for f in FMT_NAMES] + [('epytext', 'restructuredtext'), ('plaintext', 'epytext'),
+        fmtcfgs = [(f, None) for f in FMT_NAMES[:6]] + [('epytext', '_types'), ('epytext', 'restructuredtext'), ('plaintext', 'epytext'),
                                                      ('epytext', 'nosuchformat'), ('restructuredtext', 'plaintext')]
         pbeh = [('ok', 0), ('ok', 2), ('pe_app', 1), ('pe_noapp', 0), ('ValueError', 0), ('KeyError', 1),
                 ('RecursionError', 0), ('Custom', 0)]
@@ -944,10 +949,10 @@ class Check(PropertyCheck):
         impl = lib.run_impl_worker(WORKER, cases, jobs=16, timeout=3400)
         # a call that did not finish within the limit is confirmed alone, with a three times longer limit, before it is
         # called a hang (the machine is shared)
-        hung = [i for i, r in enumerate(impl) if r.get('hang')][:8]
+        hung = [i for i, r in enumerate(impl) if r.get('hang')][:4]
         if hung:
             old = os.environ.get('C08_CALL_LIMIT')
-            os.environ['C08_CALL_LIMIT'] = '90'
+            os.environ['C08_CALL_LIMIT'] = '75'
             try:
                 for i in hung:
                     r2 = lib.run_impl_worker(WORKER, [cases[i]], timeout=400)[0]
